@@ -7,13 +7,33 @@ and all histories up to a depth are explored against a small thread-state
 model: identity and threading.local data persist across calls of one thread, a
 new thread never sees an old thread's data, exited threads leave no thread
 state behind once a later callback has run, and the process survives.
+
+Families (each an exhaustive search of its own, selected by the `cfg` of Sys):
+
+  base    the original alphabet: spawn / call / ncall / exit / pycall / collect
+  extern  the callback is entered through the C stub of an extern "Python" function
+          (cffi_call_python, the second user of gil_ensure) or through the libffi
+          closure of ffi.callback, alternating on the same thread
+  gstate  the C caller wraps the callback in its own PyGILState_Ensure/Release
+          (gil_ensure finds a CPython-made, current thread state)
+  park    a call is split into enter/leave: the thread sits *inside* the callback
+          (GIL released in a C function) while other threads make first calls
+          (zombie reclamation), exit, or the Python thread calls / collects
+  all     the union of the alphabets (thorough tier only)
+  ending  (not E2; _c36_end.py) a fresh interpreter is driven into every model
+          state and then *ends* there -- normal finalisation, or fork() with the
+          child continuing -- without the cleaning close()
 """
 import ctypes
 import gc as _gc
+import importlib.util
+import json
 import os
+import subprocess
+import sys
 import threading
 
-from .. import build, cref, hist
+from .. import build, cref, hist, pool
 from ..build import InfraError
 
 ID = "C36"
@@ -27,39 +47,116 @@ META = dict(
          "the number of PyThreadStates of the interpreter (read through ctypes.pythonapi) must equal 1 + the foreign "
          "threads that are alive and have made a call (+ at most the threads that exited since a thread last made its "
          "first call, which is when exited threads are reclaimed), get_ident() and a threading.local value must persist between the "
-         "calls of one thread, and a freshly spawned thread must not see data of an exited one.",
-    note="each operation runs to completion before the next one starts: instruction-level races between a thread's "
-         "shutdown hook and the zombie reclamation in another thread are NOT explored (OS threads are not under a "
-         "controlled scheduler here)")
+         "calls of one thread, and a freshly spawned thread must not see data of an exited one.  The same count is also "
+         "taken inside every callback.  Further exhaustive families on 2 threads (thorough: 3, plus the union alphabet): "
+         "`extern` -- the same thread alternates between an extern \"Python\" function (API mode, cffi_call_python) and an "
+         "ffi.callback closure and must find the same thread state in both; `gstate` -- the C caller brings its own "
+         "PyGILState_Ensure/Release around the callback (a caller-owned state must go away with the caller's release and "
+         "must not become a zombie, a cffi-made one must survive it); `park` -- a thread stays inside the callback (GIL "
+         "released) while the others make first calls (which reclaim exited threads), exit, or Python calls / collects, "
+         "and must find its thread-local data and identity unchanged when it continues; `ending` -- for one shortest "
+         "history per reachable model state (alive without / with state, parked inside, unreclaimed exits) a fresh "
+         "interpreter stops there: normal finalisation, or fork() whose child starts new foreign threads and then leaves "
+         "by os._exit / by finalisation while the parent finishes cleanly; exit status 0 and no fatal-error text "
+         "are required of every process.",
+    note="each operation (or half of a split call) runs to completion before the next one starts: instruction-level "
+         "races between a thread's shutdown hook and the zombie reclamation in another thread are NOT explored (OS "
+         "threads are not under a controlled scheduler here)")
 
 NT = 3
+HELPER = 3
 NEST = 1000000
 _W = {}
 
+CDEF = """
+int ft_spawn(int, int(*)(int));
+int ft_spawn2(int, int(*)(int), int(*)(int));
+int ft_call(int, int);
+int ft_callk(int, int, int, int);
+int ft_enter(int, int, int, int);
+int ft_park(int);
+int ft_leave(int);
+int ft_exit(int);
+int ft_cleanup(void);
+void ft_forget(void);
+"""
 
-def setup():
+# call-like operations: name -> (kind: 0 closure / 1 extern "Python", wrap: caller-owned PyGILState, nest, park)
+CALLS = {
+    "call": (0, 0, 0, 0), "ncall": (0, 0, 1, 0),
+    "xcall": (1, 0, 0, 0), "gcall": (0, 1, 0, 0), "xgcall": (1, 1, 0, 0),
+    "enter": (0, 0, 0, 1), "xenter": (1, 0, 0, 1), "genter": (0, 1, 0, 1),
+}
+FAMILIES = {
+    "base": (["call", "ncall"], True),            # (call-like ops, pycall/collect enabled)
+    "extern": (["call", "xcall"], False),
+    "gstate": (["call", "gcall"], False),
+    "gstatex": (["call", "gcall", "xgcall", "xcall"], False),
+    "park": (["call", "enter"], True),
+    "parkq": (["call", "enter"], False),         # quick tier: without pycall / collect
+    "end": (["call", "enter"], False),           # alphabet of the prefixes of the `ending` family
+    "all": (["call", "ncall", "xcall", "gcall", "xgcall", "enter", "xenter", "genter"], True),
+}
+
+
+def build_paths():
+    """Compile the thread harness and the API-mode module holding the extern "Python" function (once, in
+    the driver; forked workers inherit the loaded objects, subprocesses get the paths)."""
     import cffi
-    so = cref.compile_so(open(os.path.join(build.HARNESS, "c36_fthreads.c")).read(), flags=["-pthread"], name="c36ft")
+    so = cref.compile_so(open(os.path.join(build.HARNESS, "c36_fthreads.c")).read(),
+                         flags=["-pthread", "-I" + build.INCLUDEPY], name="c36ft")
+    name = "_c36x_%d" % os.getpid()
+    xf = cffi.FFI()
+    xf.cdef('extern "Python" int c36_ext_cb(int);')
+    xf.set_source(name, "")
+    try:
+        xpath = xf.compile(tmpdir=os.path.join(build.scratch(), "c36x"))
+    except Exception as e:
+        raise InfraError("cannot build the extern \"Python\" module: %r" % (e,))
+    return {"so": so, "xname": name, "xpath": xpath}
+
+
+def setup(paths=None):
+    import cffi
+    if paths is None:
+        paths = build_paths()
     ffi = cffi.FFI()
-    ffi.cdef("int ft_spawn(int, int(*)(int)); int ft_call(int, int); int ft_exit(int);")
-    lib = ffi.dlopen(so)
+    ffi.cdef(CDEF)
+    lib = ffi.dlopen(paths["so"])
+    spec = importlib.util.spec_from_file_location(paths["xname"], paths["xpath"])
+    xmod = importlib.util.module_from_spec(spec)
+    spec.loader.exec_module(xmod)
     tl = threading.local()
     seen = {}
-
+    ctl = {}
     nested = {}
 
-    @ffi.callback("int(int)")
-    def cb(arg):
+    def body(arg):
         # runs in whichever thread calls it; records what that thread sees
         prev = getattr(tl, "value", None)
+        rec = {"ident": threading.get_ident(), "prev": prev, "count": tstate_count(),
+               "name_is_dummy": type(threading.current_thread()).__name__}
+        park = ctl.pop("park", None)
         if arg >= NEST:
             # re-enter the same cffi callback from Python code that HOLDS the GIL (ctypes.PYFUNCTYPE does
             # not release it): the nested entry finds the thread state already current
             nested["fn"](arg - NEST)
+        if park is not None:
+            # stay inside the callback: ft_park() is a plain C function of the cdef, so the GIL is
+            # released; the driver goes on with other operations and resumes us with ft_leave()
+            seen["enter"] = dict(rec)
+            lib.ft_park(park)
+            rec["after_park"] = getattr(tl, "value", None)
+            rec["ident_after_park"] = threading.get_ident()
         tl.value = arg
-        seen["last"] = {"ident": threading.get_ident(), "prev": prev,
-                        "name_is_dummy": type(threading.current_thread()).__name__}
+        seen["last"] = rec
         return arg + 1
+
+    cb = ffi.callback("int(int)")(body)
+    xmod.ffi.def_extern(name="c36_ext_cb")(body)
+    xcb = ffi.cast("int(*)(int)", xmod.lib.c36_ext_cb)
+    if int(ffi.cast("intptr_t", xcb)) == int(ffi.cast("intptr_t", cb)):
+        raise InfraError("extern \"Python\" stub and closure have the same address")
     api = ctypes.pythonapi
     api.PyInterpreterState_Main.restype = ctypes.c_void_p
     api.PyInterpreterState_ThreadHead.restype = ctypes.c_void_p
@@ -67,7 +164,8 @@ def setup():
     api.PyThreadState_Next.restype = ctypes.c_void_p
     api.PyThreadState_Next.argtypes = [ctypes.c_void_p]
     nested["fn"] = ctypes.PYFUNCTYPE(ctypes.c_int, ctypes.c_int)(int(ffi.cast("intptr_t", cb)))
-    _W.update(ffi=ffi, lib=lib, cb=cb, tl=tl, seen=seen, api=api)
+    _W.update(ffi=ffi, lib=lib, cb=cb, xcb=xcb, xmod=xmod, tl=tl, seen=seen, ctl=ctl, api=api, paths=paths,
+              nested=nested)
     _gc.disable()
 
 
@@ -83,75 +181,169 @@ def tstate_count():
 
 
 class Sys(object):
+    """cfg: {} (= family "base", 3 threads) or {"fam": name, "nt": 2|3}; "dry": True runs the model only
+    (used to enumerate / size a family without touching threads)."""
+
     def __init__(self, cfg):
-        lib = _W["lib"]
-        # a previous history (possibly abandoned half-way by the explorer) may have left threads running
-        for i in range(NT + 1):
-            lib.ft_exit(i)                # -1 if that slot has no thread
-        # normalise: a helper thread (slot 3) makes a first call, which reclaims every thread state left
-        # behind by exited threads of earlier histories; then it exits and is itself the only zombie
-        if lib.ft_spawn(3, _W["cb"]) != 0:
-            raise InfraError("helper spawn failed")
-        lib.ft_call(3, 0)
-        self.base = tstate_count() - 1   # the Python main thread (measured, not assumed)
-        lib.ft_exit(3)
+        self.fam = cfg.get("fam", "base")
+        self.nt = nt = int(cfg.get("nt", NT))
+        self.dry = bool(cfg.get("dry"))
+        self.calls, self.pyops = FAMILIES[self.fam]
+        if not self.dry:
+            lib = _W["lib"]
+            # a previous history (possibly abandoned half-way by the explorer) may have left threads running,
+            # some of them parked inside a callback
+            lib.ft_cleanup()
+            _W["ctl"].clear()
+            # normalise: a helper thread (slot 3) makes a first call, which reclaims every thread state left
+            # behind by exited threads of earlier histories; then it exits and is itself the only zombie
+            if lib.ft_spawn2(HELPER, _W["cb"], _W["xcb"]) != 0:
+                raise InfraError("helper spawn failed")
+            lib.ft_call(HELPER, 0)
+            self.base = tstate_count() - 1   # the Python main thread (measured, not assumed)
+            lib.ft_exit(HELPER)
+            self.main_local = getattr(_W["tl"], "value", None)
+        else:
+            self.base = 1
+            self.main_local = None
         self.zombies = 1                 # exited-with-state threads not yet reclaimed
-        self.alive = [False] * NT
-        self.called = [False] * NT      # has a PyThreadState (made at least one call)
-        self.local = [None] * NT        # model of the thread's threading.local value
-        self.ident = [None] * NT
+        self.alive = [False] * nt
+        self.called = [False] * nt      # has a cffi-made, persistent PyThreadState (made a bare call)
+        self.inside = [False] * nt      # parked inside a callback (between enter and leave)
+        self.temp = [False] * nt        # inside, on a thread state owned by the C caller's PyGILState_Ensure
+        self.local = [None] * nt        # the value this thread last stored in the threading.local
+        self.ident = [None] * nt
+        self.pending = [None] * nt      # argument of the call a parked thread is inside of
         self.narg = 10
-        self.main_local = getattr(_W["tl"], "value", None)
 
     def enabled(self):
         ops = []
-        free = [i for i in range(NT) if not self.alive[i]]
+        nt = self.nt
+        free = [i for i in range(nt) if not self.alive[i]]
         if free:
             ops.append(("spawn",))
-        for i in range(NT):
+        for i in range(nt):
             if self.alive[i]:
-                ops.append(("call", i))
-                ops.append(("ncall", i))       # a call whose Python body re-enters the callback with the GIL held
+                if self.inside[i]:
+                    ops.append(("leave", i))
+                    continue
+                for c in self.calls:               # "ncall": the Python body re-enters the callback, GIL held
+                    ops.append((c, i))
                 ops.append(("exit", i))
-        ops.append(("pycall",))
-        ops.append(("collect",))
+        if self.pyops:
+            ops.append(("pycall",))
+            ops.append(("collect",))
         return ops
 
+    # -- model helpers ---------------------------------------------------------------------------------------
+    def _with_state(self):
+        return sum(1 for i in range(self.nt) if self.alive[i] and (self.called[i] or self.temp[i]))
+
+    def _seen_ok(self, i, s, zombies_before):
+        """Checks common to everything a foreign thread observes at the start of a callback."""
+        ok_prev = (self.local[i],) if self.called[i] else (None, self.local[i])
+        # ^ without a cffi-made state the thread has either never run Python (local is None) or ran it only on
+        #   thread states that its C caller made and destroyed (PyGILState_Release): the statement is silent on
+        #   whether data stored there survives, so both answers are accepted -- but never another thread's data
+        if s["prev"] not in ok_prev:
+            return {"kind": "thread-local-lost-or-leaked", "first_call": not self.called[i],
+                    "saw": s["prev"], "expected": self.local[i]}
+        if self.ident[i] is not None and s["ident"] != self.ident[i]:
+            return {"kind": "thread-identity-changed"}
+        if s["ident"] == threading.get_ident():
+            return {"kind": "foreign-thread-has-main-thread-identity"}
+        return None
+
+    def _count_inside(self, s, zombies_before, where):
+        lo = self.base + self._with_state()
+        hi = lo + zombies_before
+        if not (lo <= s["count"] <= hi):
+            return {"kind": "thread-state-count-inside-callback", "where": where, "count": s["count"],
+                    "expected_min": lo, "expected_max": hi}
+        return None
+
     def apply(self, op):
-        lib, cb, seen = _W["lib"], _W["cb"], _W["seen"]
         k = op[0]
+        dry = self.dry
+        if not dry:
+            lib, cb, seen = _W["lib"], _W["cb"], _W["seen"]
         if k == "spawn":
-            i = [j for j in range(NT) if not self.alive[j]][0]
-            if lib.ft_spawn(i, cb) != 0:
+            i = [j for j in range(self.nt) if not self.alive[j]][0]
+            if not dry and lib.ft_spawn2(i, cb, _W["xcb"]) != 0:
                 raise InfraError("pthread_create failed")
             self.alive[i] = True
             self.called[i] = False
             self.local[i] = None
             self.ident[i] = None
-        elif k in ("call", "ncall"):
+        elif k in CALLS:
+            kind, wrap, nest, park = CALLS[k]
             i = op[1]
             self.narg += 1
-            seen.pop("last", None)
-            extra = NEST if k == "ncall" else 0
-            r = lib.ft_call(i, self.narg + extra) - extra
-            s = seen.get("last")
-            if r != self.narg + 1 or s is None:
-                return {"kind": "callback-did-not-run-or-wrong-result", "got": r}
-            if s["prev"] != self.local[i]:
-                return {"kind": "thread-local-lost-or-leaked", "first_call": not self.called[i],
-                        "saw": s["prev"], "expected": self.local[i]}
-            if self.ident[i] is not None and s["ident"] != self.ident[i]:
-                return {"kind": "thread-identity-changed"}
-            if s["ident"] == threading.get_ident():
-                return {"kind": "foreign-thread-has-main-thread-identity"}
-            self.ident[i] = s["ident"]
-            self.local[i] = self.narg + extra
-            if not self.called[i]:
-                self.zombies = 0            # a thread registering its state first reclaims the exited threads' states
-            self.called[i] = True
+            extra = NEST if nest else 0
+            arg = self.narg + extra
+            zb = self.zombies
+            first = not self.called[i]
+            if not dry:
+                seen.pop("last", None)
+                seen.pop("enter", None)
+                if park:
+                    _W["ctl"]["park"] = i
+                    r = lib.ft_enter(i, arg, kind, wrap)
+                    if r != 1:
+                        _W["ctl"].pop("park", None)
+                        return {"kind": "callback-did-not-run-or-wrong-result", "op": k, "got": r}
+                    s = seen.get("enter")
+                else:
+                    r = lib.ft_callk(i, arg, kind, wrap) - extra
+                    s = seen.get("last")
+                    if r != self.narg + 1:
+                        return {"kind": "callback-did-not-run-or-wrong-result", "op": k, "got": r}
+                if s is None:
+                    return {"kind": "callback-did-not-run-or-wrong-result", "op": k, "got": None}
+                bad = self._seen_ok(i, s, zb)
+                if bad:
+                    bad["op"] = k
+                    return bad
+            # model: a bare entry on a thread without state makes the persistent one (and reclaims the exited
+            # threads' states first); a wrapped entry on such a thread runs on the caller's temporary state
+            if first and not wrap:
+                self.zombies = 0
+                self.called[i] = True
+            elif first and wrap:
+                self.temp[i] = True
+            if not dry:
+                bad = self._count_inside(s, zb, k)
+                if bad:
+                    return bad
+                self.ident[i] = s["ident"]
+            if park:
+                self.inside[i] = True
+                self.pending[i] = arg
+            else:
+                self.local[i] = arg
+                self.temp[i] = False        # the caller's PyGILState_Release destroyed its state
+        elif k == "leave":
+            i = op[1]
+            arg = self.pending[i]
+            if not dry:
+                seen.pop("last", None)
+                r = lib.ft_leave(i)
+                s = seen.get("last")
+                if r != arg + 1 or s is None:
+                    return {"kind": "callback-did-not-run-or-wrong-result", "op": k, "got": r}
+                # the thread continues on the state it entered with: data and identity as before it parked
+                if s.get("after_park") != s["prev"]:
+                    return {"kind": "thread-local-changed-while-inside-callback", "saw": s.get("after_park"),
+                            "expected": s["prev"]}
+                if s.get("ident_after_park") != self.ident[i]:
+                    return {"kind": "thread-identity-changed", "op": k}
+            self.inside[i] = False
+            self.temp[i] = False
+            self.pending[i] = None
+            self.local[i] = arg
         elif k == "exit":
             i = op[1]
-            if lib.ft_exit(i) != 0:
+            if not dry and lib.ft_exit(i) != 0:
                 raise InfraError("ft_exit failed")
             if self.called[i]:
                 self.zombies += 1
@@ -161,21 +353,28 @@ class Sys(object):
             self.ident[i] = None
         elif k == "pycall":
             self.narg += 1
-            seen.pop("last", None)
-            r = cb(self.narg)
-            s = seen.get("last")
-            if r != self.narg + 1 or s["ident"] != threading.get_ident():
-                return {"kind": "python-thread-callback-wrong"}
-            if s["prev"] != self.main_local:
-                return {"kind": "main-thread-local-disturbed", "saw": s["prev"], "expected": self.main_local}
+            if not dry:
+                seen.pop("last", None)
+                r = cb(self.narg)
+                s = seen.get("last")
+                if r != self.narg + 1 or s is None or s["ident"] != threading.get_ident():
+                    return {"kind": "python-thread-callback-wrong"}
+                if s["prev"] != self.main_local:
+                    return {"kind": "main-thread-local-disturbed", "saw": s["prev"], "expected": self.main_local}
+                bad = self._count_inside(s, self.zombies, k)
+                if bad:
+                    return bad
             self.main_local = self.narg
         elif k == "collect":
-            _gc.collect()
-        return self._check()
+            if not dry:
+                _gc.collect()
+        else:
+            raise InfraError("unknown op %r" % (op,))
+        return None if dry else self._check()
 
     def _check(self):
         n = tstate_count()
-        with_state = sum(1 for i in range(NT) if self.alive[i] and self.called[i])
+        with_state = self._with_state()
         lo = self.base + with_state
         hi = lo + self.zombies
         if not (lo <= n <= hi):
@@ -184,24 +383,124 @@ class Sys(object):
         return None
 
     def key(self):
-        return (tuple(self.alive), tuple(self.called), self.zombies)
+        dirty = tuple((not c) and (v is not None) for c, v in zip(self.called, self.local))
+        return (tuple(self.alive), tuple(self.called), self.zombies, tuple(self.inside), tuple(self.temp), dirty)
+
+    def shape(self):
+        """Model state up to thread renaming (used to pick the representatives of the `ending` family)."""
+        per = sorted((self.called[i], self.inside[i]) for i in range(self.nt) if self.alive[i])
+        return (tuple(per), self.zombies)
 
     def close(self):
-        """End of history: stop every thread, run one callback (reclaims exited threads), and the
-        interpreter must be back to its initial number of thread states."""
+        """End of history: let parked threads return, stop every thread, run one callback (reclaims exited
+        threads), and the interpreter must be back to its initial number of thread states."""
+        if self.dry:
+            return None
         lib = _W["lib"]
-        for i in range(NT):
+        for i in range(self.nt):
+            if self.alive[i] and self.inside[i]:
+                bad = self.apply(("leave", i))
+                if bad:
+                    return bad
+        for i in range(self.nt):
             if self.alive[i]:
                 lib.ft_exit(i)
                 self.alive[i] = False
                 self.called[i] = False
-        lib.ft_spawn(3, _W["cb"])
-        lib.ft_call(3, 1)                # first call of a new thread: reclaims all exited threads
+        lib.ft_spawn2(HELPER, _W["cb"], _W["xcb"])
+        lib.ft_call(HELPER, 1)                # first call of a new thread: reclaims all exited threads
         n_mid = tstate_count()
-        lib.ft_exit(3)
+        lib.ft_exit(HELPER)
         if n_mid != self.base + 1:
             return {"kind": "thread-state-leak", "count": n_mid, "expected": self.base + 1}
         return None
+
+
+# ---- the `ending` family: processes that stop in the middle ---------------------------------------------------
+
+HOWS = ("finalize", "fork-exit", "fork-finalize")
+CHILD_HISTORY = [("spawn",), ("call", 0), ("xcall", 0), ("exit", 0), ("spawn",), ("xcall", 0)]
+
+
+def ending_prefixes(nt, depth):
+    """One shortest history (first in canonical order) for every model shape reachable within `depth`
+    operations of the alphabet spawn / call / enter / exit (the model only; nothing is executed)."""
+    cfg = {"fam": "end", "nt": nt, "dry": True}
+    reps = {}
+    level = [()]
+    for d in range(depth + 1):
+        nxt = []
+        for h in level:
+            s = hist.build(Sys, cfg, h)
+            reps.setdefault(s.shape(), h)
+            if d < depth:
+                for op in s.enabled():
+                    if op[0] != "leave":
+                        nxt.append(h + (op,))
+        level = nxt
+    return [list(h) for _, h in sorted(reps.items(), key=lambda kv: (len(kv[1]), kv[1]))]
+
+
+def run_endings(specs):
+    """Run `ending` cases: one helper interpreter (which never runs a callback itself) forks one case process
+    per spec from its top level.  Returns [(verdict-dict-or-None, raw observation)] in the order of specs."""
+    job = {"paths": _W["paths"], "specs": specs}
+    p = subprocess.run([sys.executable, "-m", "vlib.props._c36_end", json.dumps(job)],
+                       stdout=subprocess.PIPE, stderr=subprocess.PIPE, text=True, timeout=3000)
+    got = {}
+    for line in p.stdout.splitlines():
+        if line.startswith("C36END "):
+            _, k, js = line.split(" ", 2)
+            got[int(k)] = json.loads(js)
+    if p.returncode != 0 or len(got) != len(specs):
+        raise InfraError("ending helper failed (status %r, %d of %d cases):\n%s"
+                         % (p.returncode, len(got), len(specs), p.stderr[-3000:]))
+    return [(judge_ending(spec, got[k]), got[k]) for k, spec in enumerate(specs)]
+
+
+def judge_ending(spec, obs):
+    how = spec["how"]
+    rc, err, recs = obs["returncode"], obs["stderr"], obs["records"]
+    fatal = [m for m in ("Fatal Python error", "ThreadCanaryObj", "cffi: invalid") if m in err]
+    if rc == 1 and "Traceback" in err and not fatal:
+        raise InfraError("ending case failed in the harness:\n" + err)
+    if rc != 0 or fatal:
+        return {"kind": "process-ended-abnormally", "how": how, "process": "main",
+                "status": "signal" if rc < 0 else ("nonzero" if rc else "zero"), "fatal_message": bool(fatal)}
+    main = recs.get("main")
+    if main is None:
+        raise InfraError("ending case printed no record: %r" % (obs,))
+    for role in ("main", "child"):
+        r = recs.get(role)
+        if r and r.get("bad"):
+            return dict(r["bad"], how=how, process=role, stage=r.get("stage"))
+    if how != "finalize":
+        cs = main.get("child_status")
+        if cs != 0 or "child" not in recs:
+            return {"kind": "process-ended-abnormally", "how": how, "process": "child",
+                    "status": "signal" if (cs or 0) < 0 else ("nonzero" if cs else "no-record"),
+                    "fatal_message": bool(fatal)}
+    return None
+
+
+# ---- driver ---------------------------------------------------------------------------------------------------
+
+def _plan(quick):
+    """(label, cfg, depth, d0, split) of every E2 family of this tier."""
+    if quick:
+        return [
+            ("base", {}, 6, 5, 2),
+            ("extern", {"fam": "extern", "nt": 2}, 5, 5, 3),
+            ("gstate", {"fam": "gstate", "nt": 2}, 5, 5, 3),
+            ("park", {"fam": "parkq", "nt": 2}, 6, 6, 3),
+        ]
+    return [
+        ("base", {}, 8, 6, 2),
+        ("extern", {"fam": "extern", "nt": 3}, 6, 5, 3),
+        ("gstate", {"fam": "gstatex", "nt": 3}, 6, 4, 3),
+        ("park", {"fam": "park", "nt": 3}, 7, 4, 2),
+        ("all", {"fam": "all", "nt": 3}, 5, 3, 2),
+    ]
 
 
 def run(ctx):
@@ -209,36 +508,101 @@ def run(ctx):
     base = tstate_count()
     # leave the process in a known state: the closing sequence leaves exactly one zombie behind,
     # which the first callback of the next history reclaims; Sys() measures its base afterwards.
-    depth, d0 = (6, 5) if ctx.quick else (8, 6)
-    st, crashes = hist.run_parallel(Sys, [{}], depth, d0, split=2)
-    for item, cr, last in crashes:
-        ctx.violation({"kind": "crash"}, {"prefix": item[1], "last_history": last, "how": cr.describe()})
-    for h, info in st.violations:
-        ctx.violation({"kind": info.get("kind")}, {"history": h, "info": info})
-    for k, v in sorted(st.op_hist.items()):
-        ctx.count("op_" + str(k), v)
-    for smp in st.samples:
-        ctx.sample({"history": smp})
-    if not st.samples:
+    tot = dict(states=0, transitions=0, merged=0, closed=0, max_depth=0)
+    fams = {}
+    for label, cfg, depth, d0, split in _plan(ctx.quick):
+        st, crashes = hist.run_parallel(Sys, [cfg], depth, d0, split=split)
+        for item, cr, last in crashes:
+            ctx.violation({"kind": "crash", "family": label},
+                          {"cfg": cfg, "prefix": item[1], "last_history": last, "how": cr.describe()})
+        for h, info in st.violations:
+            sig = {"kind": info.get("kind")}
+            if label != "base":
+                sig["family"] = label
+                for extra in ("op", "where"):
+                    if extra in info:
+                        sig[extra] = info[extra]
+            ctx.violation(sig, {"cfg": cfg, "history": h, "info": info})
+        for k, v in sorted(st.op_hist.items()):
+            ctx.count("op_" + str(k), v)
+        ctx.count("family_%s_transitions" % label, st.transitions)
+        ctx.count("family_%s_states" % label, st.states)
+        for smp in st.samples[:2]:
+            ctx.sample({"family": label, "history": smp})
+        fams[label] = {"cfg": cfg, "depth": depth, "unmerged_depth_d0": d0, "states": st.states,
+                       "transitions": st.transitions, "merged_states_skipped": st.merged}
+        tot["states"] += st.states
+        tot["transitions"] += st.transitions
+        tot["merged"] += st.merged
+        tot["closed"] += st.histories_closed
+        tot["max_depth"] = max(tot["max_depth"], st.max_depth)
+        ctx.log("family %s: %d states, %d transitions" % (label, st.states, st.transitions))
+    # the `ending` family
+    nt_e, depth_e = (2, 5) if ctx.quick else (3, 6)
+    prefixes = ending_prefixes(nt_e, depth_e)
+    specs = [{"cfg": {"fam": "end", "nt": nt_e}, "history": h, "how": how} for h in prefixes for how in HOWS]
+    n_end = 0
+    nz = max(1, min(8, len(specs) // 4))              # helper interpreters; each forks its cases one by one
+    chunks = [specs[i::nz] for i in range(nz)]
+    for chunk, r in pool.pmap(run_endings, [[c] for c in chunks], item_timeout=3000):
+        if isinstance(r, pool.WorkerError):
+            raise InfraError(r.tb)
+        if isinstance(r, pool.Crash):
+            raise InfraError("ending worker: %r" % (r,))
+        for spec, (bad, obs) in zip(chunk, r):
+            n_end += 1
+            ctx.count("ending_" + spec["how"])
+            if any(op[0] == "enter" for op in spec["history"]):
+                ctx.count("ending_with_thread_inside_callback")
+            if bad is not None:
+                sig = {"family": "ending"}
+                sig.update({k: v for k, v in bad.items() if k in ("kind", "how", "process", "status",
+                                                                  "fatal_message", "stage", "op", "where")})
+                ctx.violation(sig, {"family": "ending", "spec": spec, "info": bad, "observed": obs})
+            elif len(spec["history"]) >= depth_e - 1:
+                ctx.sample({"family": "ending", "history": [repr(tuple(o)) for o in spec["history"]],
+                            "how": spec["how"], "returncode": obs["returncode"]})
+    ctx.count("ending_model_shapes", len(prefixes))
+    ctx.log("family ending: %d shapes x %d ways" % (len(prefixes), len(HOWS)))
+    if not ctx.samples:
         ctx.sample({"note": "see class_histogram"})
+    d0_base = fams["base"]["unmerged_depth_d0"]
     cov = {
-        "states": st.states, "transitions": st.transitions, "traces_validated_against_impl": st.transitions,
-        "max_depth": st.max_depth, "unmerged_depth_d0": d0, "merged_states_skipped": st.merged,
-        "histories_closed": st.histories_closed, "evaluations": st.transitions, "distinct_nontrivial": st.states,
-        "rule": "a state is an operation history (merged by model key beyond d0); every transition drives real pthreads",
+        "states": tot["states"] + n_end, "transitions": tot["transitions"] + n_end,
+        "traces_validated_against_impl": tot["transitions"] + n_end,
+        "max_depth": tot["max_depth"], "unmerged_depth_d0": d0_base, "merged_states_skipped": tot["merged"],
+        "histories_closed": tot["closed"], "evaluations": tot["transitions"] + n_end,
+        "distinct_nontrivial": tot["states"] + n_end,
+        "families": fams,
+        "ending": {"threads": nt_e, "prefix_depth": depth_e, "model_shapes": len(prefixes), "ways": list(HOWS),
+                   "processes_run": n_end},
+        "rule": "a state is an operation history (merged by model key beyond the family's d0); every transition drives "
+                "real pthreads.  Families: base (spawn/call/ncall/exit/pycall/collect), extern (closure and extern "
+                "\"Python\" entry alternating), gstate (caller-owned PyGILState around the callback), park (threads "
+                "inside a callback while others run), all (union; thorough); ending = one fresh interpreter per "
+                "(model shape, way of ending), counted as one state and one transition each",
         "initial_thread_states": base, "exhaustive": True,
     }
     return ctx.finish(cov, ["operations are serialised (see level_note)",
-                            "PyThreadState count read with ctypes.pythonapi under the GIL"])
+                            "PyThreadState count read with ctypes.pythonapi under the GIL",
+                            "a thread state made by the C caller's PyGILState_Ensure belongs to that caller: its "
+                            "disappearance at PyGILState_Release is CPython's contract, data stored on it may or may "
+                            "not be seen later"])
 
 
 def replay(detail):
     setup()
+    if detail.get("family") == "ending":
+        bad, obs = run_endings([detail["spec"]])[0]
+        print("spec:", detail["spec"])
+        print("observed:", json.dumps(obs, indent=1))
+        print("verdict:", bad)
+        return 1 if bad else 0
     h = detail.get("history")
     if h is None:
         print(detail)
         return 1
-    s = Sys({})
+    s = Sys(detail.get("cfg") or {})
     for op in [tuple(o) for o in h if tuple(o) != ("<close>",)]:
         bad = s.apply(op)
         print(op, "->", bad, "tstates:", tstate_count())
